@@ -98,10 +98,5 @@ def main(run: core.Run) -> None:
     # comment-attribution calls to a fixpoint per document (this is where a placeholder left behind its items shows)
     from .. import claims
     n = 3 if tier == 'quick' else 4
-    bfs_cases = []
-    for t in docs.texts(docs.L_COMMENT, n, nmin=1, variants=(('lf', True),)):
-        for mode in (True, False):
-            root = docs.try_parse(t, M.File, mode)
-            if root is not None and any(isinstance(x, M.BlockComment) for x in root.token_store):
-                bfs_cases.append({'text': t, 'mode': mode})
+    bfs_cases = claims.bfs_corpus(n, with_txn4=(tier == 'quick'))
     claims.claims_bfs(run, bfs_cases, {'tree'}, 'claim-call BFS (check_tree)')
